@@ -40,7 +40,7 @@ type c06File struct {
 }
 
 type c06Layout struct {
-	Type  string    `json:"type"`
+	Type  string `json:"type"`
 	typ   int
 	Off   int64     `json:"grid_offset"`
 	Step  int64     `json:"grid_step"`
@@ -804,7 +804,7 @@ func TestC06(t *testing.T) {
 	r.Rule("case = layout of one key over 2–5 real TSM files (1–4 disjoint blocks per file on a 24-slot grid, one block usually derived from an earlier file's block: identical/nested/superset/touching/adjacent/interleaved/shifted), 0–2 tombstone ranges per file (tombstone file before open, or DeleteRange/Delete on the open TSMFile), one of five value types; every layout is read at every grid time and ±1, far below/above, MinInt64 and MaxInt64, ascending and descending, Read<T>Block and Read<T>ArrayBlock; non-trivial = blocks of two different files overlap in time; distinct = hash of (type, grid, blocks, tombstones)")
 	r.Assume("a tombstone belongs to the TSM file it is stored with: it hides that file's points only (an older file's point at the same time stays live)",
 		"blocks of one key inside one file do not overlap (what the engine's writers produce); overlap is across files")
-	n := r.N(600, 30000)
+	n := r.N(600, 20000)
 	base, err := tfScratch("c06-")
 	if err != nil {
 		t.Fatal(err)
@@ -856,6 +856,11 @@ func TestC06(t *testing.T) {
 			}
 			if m.class == "stale_value" || m.class == "out_of_order" || m.class == "duplicate_point" || m.class == "missing_point" {
 				m.feat["order_cycle"] = fmt.Sprint(c06OrderCycle(l, m.feat["direction"] == "asc"))
+				nb := 0
+				for _, f := range l.Files {
+					nb += len(f.Blocks)
+				}
+				m.feat["layout_blocks"] = map[bool]string{true: "gt12", false: "le12"}[nb > 12]
 			}
 			// one witness per (layout, class, direction, form): neighbouring seek times repeat it
 			if layoutHit[k] {
